@@ -39,8 +39,10 @@ The loop's output is the list of calls it makes on the handler (`Op` of Limit.le
 about handler histories apply to it by refinement.
 -/
 import Uquic.Model.Amp.Limit
+import Uquic.Spec.AmpWire
 
 namespace Uquic.Model.Amp
+open Uquic.Spec.AmpMon
 
 /-- the environment's contribution to one `SendMode` consultation and the packing around it -/
 structure Env where
@@ -108,17 +110,23 @@ structure LoopSt where
   h : H
   /-- the calls made on the handler so far, oldest first -/
   calls : List Op := []
-  /-- ghost: bytes written by `sendConnectionClose`, which the handler never sees -/
-  unaccounted : Nat := 0
+  /-- ghost: what an observer of the socket sees: arrivals, EVERY datagram written (CONNECTION_CLOSE
+      included), and the moment of validation -/
+  wire : List WireEv := []
 deriving Repr
 
 def LoopSt.step (s : LoopSt) : LoopOp → LoopSt
-  | .arrive n => { s with h := s.h.receivedBytes n, calls := s.calls ++ [.rcvBytes n] }
-  | .processed l => { s with h := s.h.receivedPacket l, calls := s.calls ++ [.rcvPacket l] }
+  | .arrive n => { h := s.h.receivedBytes n, calls := s.calls ++ [.rcvBytes n], wire := s.wire ++ [.inn n] }
+  | .processed l =>
+    { h := s.h.receivedPacket l, calls := s.calls ++ [.rcvPacket l], wire := s.wire ++ opWire s.h (.rcvPacket l) }
   | .trigger confirmed envs =>
     let r := triggerSending confirmed s.h envs
-    { s with h := r.1, calls := s.calls ++ r.2 }
-  | .closeLocal size => { s with unaccounted := s.unaccounted + size }
+    { h := r.1, calls := s.calls ++ r.2, wire := s.wire ++ wireOfCalls s.h r.2 }
+  | .closeLocal size => { s with wire := s.wire ++ [.out size] }
+
+def LoopOp.isClose : LoopOp → Bool
+  | .closeLocal _ => true
+  | _ => false
 
 def runLoop (pers : Persp) (cav : Bool) (ops : List LoopOp) : LoopSt :=
   ops.foldl LoopSt.step { h := H.new pers cav }
